@@ -162,6 +162,8 @@ cdef class LegacyRecordBatch:
             Py_ssize_t length = 0
             char* buf
         buf = <char*> self._buffer.buf
+        # There is no last message in an empty message set
+        self._check_bounds(0, LOG_OVERHEAD)
         while pos < buffer_len:
             self._check_bounds(pos, LOG_OVERHEAD)
             length = <Py_ssize_t> hton.unpack_int32(&buf[pos + LENGTH_OFFSET])
